@@ -348,11 +348,37 @@ def check_mhistory(ctx, case):
                 want = ent
                 got = bytes(m.to_entropy(text))
                 what = 'to_entropy(<%s sentence>)' % op['lang']
+            elif name == 'bad_sentence':
+                # a sentence with a wrong checksum: first read WITHOUT validation (a documented option: the seed of the
+                # text as it is), then with validation - by this object and by a new one - which has to refuse it
+                words = list(bip39.entropy_to_words(ent, lang))
+                wl = bip39.wordlist(lang)
+                words[-1] = wl[(wl.index(words[-1]) + 1) % 2048]
+                try:
+                    bip39.words_to_entropy(words, lang)
+                    done.append('bad_sentence(skipped: checksum matches)')
+                    continue
+                except ValueError:
+                    pass
+                text = _spell(words, lang, 'lib')
+                want = bip39.seed(text, 'pw')
+                got = bytes(m.to_seed(text, 'pw', validate=False))
+                what = 'to_seed(<sentence with wrong checksum>, validate=False)'
+                for who, obj in (('the same object', m), ('a new Mnemonic object', mn.Mnemonic(lang))):
+                    try:
+                        obj.to_seed(text, 'pw')
+                    except Exception:
+                        continue
+                    raise Discrepancy('mhistory.bad_checksum_accepted', 'Mnemonic(%r): to_seed(<sentence with wrong '
+                                      'checksum>) by %s returned a seed after the sentence had been read once with '
+                                      'validate=False (earlier: %r)' % (lang, who, done), case)
             else:
                 text = _spell(bip39.entropy_to_words(ent, op['lang']), op['lang'], 'lib')
                 want = bip39.seed(text, 'pw')
                 got = bytes(m.to_seed(text, 'pw'))
                 what = 'to_seed(<%s sentence>)' % op['lang']
+        except Discrepancy:
+            raise
         except Exception as e:
             if _is_ascii_hex(ent):
                 ctx.refusal('mhistory.ascii_hex_entropy')
@@ -651,6 +677,7 @@ def run(ctx):
     mop = hst.one_of(
         hst.fixed_dictionaries({'op': hst.just('to_mnemonic'), 'entropy': ent16}),
         hst.fixed_dictionaries({'op': hst.just('word'), 'i': hst.sampled_from([0, 1, 1000, 2047])}),
+        hst.fixed_dictionaries({'op': hst.just('bad_sentence'), 'entropy': ent16}),
         hst.fixed_dictionaries({'op': hst.sampled_from(['to_entropy', 'to_entropy', 'to_seed']), 'entropy': ent16,
                                 'lang': hst.sampled_from(LANGS)}))
     mhist = hst.fixed_dictionaries({'kind': hst.just('mhistory'), 'lang': hst.sampled_from(LANGS),
